@@ -1,7 +1,7 @@
 import Rawr.Proofs.MakeMoveAbsD
 /-! C02: castling (king takes own rook, Chess960 geometry) refines `Spec.apply`. -/
 namespace Rawr.MM
-open Rawr Rawr.Position Rawr.Spec Rawr.ZH
+open Rawr Rawr.Position Rawr.Spec Rawr.ZH Rawr.SV
 
 /-! ### the mover's king square on the specification side -/
 
